@@ -13,6 +13,7 @@
    The model is the REPAIRED SetPayload (defect F7) and stuffingEnd (F6); see notes/findings/C02.md. *)
 From Gots Require Import Base.Prelude Base.PacketLemmas Model.Packet Model.Create Spec.Iso13818Hdr
   Proofs.HdrBits Proofs.PayloadPart Proofs.PayloadSet Proofs.PayloadCreate Proofs.PayloadAfc
+  Spec.Iso13818Recog Proofs.IsoRecogSound
   Model.Pes Proofs.PesCreate Proofs.CreateOptions.
 Import Packet.
 Local Open Scope N_scope.
@@ -63,12 +64,42 @@ Theorem C02_set_payload_empty : forall l, Iso.wf_lpkt l -> carries_payload l ->
 Proof. exact set_payload_empty. Qed.
 Print Assumptions C02_set_payload_empty.
 
-(* the required result is well-formed, keeps the header (control 01 -> 11 only when a field must be
-   created) and reads back exactly the first min(n, capacity) bytes through both accessors *)
-Theorem C02_set_payload_result_wf : forall l d,
+(* "fills any gap with stuffing so the packet STAYS WELL-FORMED".  The property quantifies over payload lengths 0..200;
+   the clause as the text reads (no restriction on d): *)
+Definition C02_set_payload_result_wf_full : Prop :=
+  forall l d, Iso.wf_lpkt l -> carries_payload l -> is_bytes d -> Iso.wf_lpkt (Iso.set_payload l d).
+(* What is proved: the clause for every payload of AT LEAST ONE byte (the hypothesis `d <> []` is what is missing from the
+   full statement; Iso.set_payload l d is what the code leaves, C02_set_payload_ok).  Also the header is kept (control 01 -> 11 only
+   when a field must be created) and the first min(n, capacity) bytes are read back through both accessors. *)
+Theorem C02_set_payload_result_wf_partial : forall l d,
   Iso.wf_lpkt l -> carries_payload l -> d <> [] -> is_bytes d -> Iso.wf_lpkt (Iso.set_payload l d).
 Proof. exact set_payload_wf. Qed.
-Print Assumptions C02_set_payload_result_wf.
+Print Assumptions C02_set_payload_result_wf_partial.
+(* KNOWN FINDING K2 (known_findings.json, notes/findings/C02.md): for n = 0 the clause is FALSE, on EVERY well-formed packet with
+   payload: SetPayload(p, nil) leaves adaptation_field_control 11 with adaptation_field_length 183 and no payload byte
+   (C02_set_payload_empty), and a well-formed packet with the payload flag has at least one payload byte
+   (C02_wf_payload_flag_nonempty: control 11 needs length <= 182).  No well-formed result can keep the payload flag with zero
+   payload bytes, so this is recorded, not repaired (a repair would have to switch the control to 10, i.e. change what
+   SetPayload promises).  bin/check C02 judges the REAL result of every deciding pay.set case with the recogniser
+   spec.pkt.wf (below) and reports this as a KNOWN-FINDING line. *)
+Theorem C02_wf_payload_flag_nonempty : forall l,
+  Iso.wf_lpkt l -> Iso.has_payload (Iso.lh l) = true -> Iso.lpayload l <> [].
+Proof. exact wf_payload_flag_nonempty. Qed.
+Print Assumptions C02_wf_payload_flag_nonempty.
+Theorem C02_set_payload_result_wf_refuted : forall l,
+  Iso.wf_lpkt l -> carries_payload l -> ~ Iso.wf_lpkt (Iso.set_payload l []).
+Proof. exact set_payload_empty_not_wf. Qed.
+Print Assumptions C02_set_payload_result_wf_refuted.
+Theorem C02_set_payload_result_wf_full_refuted : ~ C02_set_payload_result_wf_full.
+Proof. exact set_payload_wf_full_refuted. Qed.
+Print Assumptions C02_set_payload_result_wf_full_refuted.
+(* the judge of the check: IsoRecog.wf_pktb (Spec/Iso13818Recog.v) reads a candidate logical packet off 188 bytes and accepts when
+   the boolean wf_lpktb holds of it and it serialises to exactly these bytes.  Sound: what it accepts is the serialisation of a
+   well-formed logical packet.  (Completeness is not proved; the generator asserts that the judge accepts every well-formed packet
+   it serialises, about 600 per quick run.) *)
+Theorem C02_wf_recogniser_sound : forall p, IsoRecog.wf_pktb p = true -> exists l, Iso.wf_lpkt l /\ Iso.ser_pkt l = p.
+Proof. exact wf_pktb_sound. Qed.
+Print Assumptions C02_wf_recogniser_sound.
 Theorem C02_set_payload_readback : forall l d,
   Iso.wf_lpkt l -> carries_payload l -> d <> [] -> is_bytes d ->
   let p' := Iso.ser_pkt (Iso.set_payload l d) in
@@ -165,6 +196,11 @@ Theorem C02_create_packet_with_payload : forall v cc pay, v < 8192 -> cc < 16 ->
   exists body, Payload_fn p = Ok body /\ takeN (len pay) body = takeN 184 pay.
 Proof. exact create_pwp_spec. Qed.
 Print Assumptions C02_create_packet_with_payload.
+(* CreateTestPacket(pid, cc, pusi, hasPay) as the code behaves (test helper; audit-1 item 19): PUSI is set only when
+   hasPay && pusi, so a requested PUSI is DROPPED for hasPay = false; and for hasPay = false no control bit is set at all:
+   adaptation_field_control = 00, the reserved value that CheckErrors rejects (WithContinuousAF writes byte 5 but no option
+   flags the field).  So "flags ... are the ones requested" holds of this helper only for hasPay = true; the statement below
+   says exactly what is produced: pusi := hasPay && pusi, control := (hasPay ? 01 : 00).  Not repaired (documented test helper). *)
 Theorem C02_create_test_packet : forall v cc, v < 8192 -> cc < 16 -> forall pusi hasPay,
   let p := Create.CreateTestPacket (Z.of_N v) cc pusi hasPay in
   is_pkt p /\ Iso.hdr_of p = Iso.mkHdr 71 0 (b2n (hasPay && pusi)) 0 v 0 (b2n hasPay) cc.
